@@ -420,6 +420,18 @@ func runC12(c *fw.Ctx) {
 				continue
 			}
 			if lateCheck {
+				// a follower that holds nothing at all has not (re)joined its leaders yet: the leaders' pipelines look
+				// idle because they have nothing to send to a follower they do not know of
+				for _, f := range followers {
+					rows := 0
+					for _, t := range tables {
+						rows += len(f.Query(ctxBackground(), "SELECT _points FROM "+t.name, true).Rows)
+					}
+					if rows == 0 {
+						c.Inconclusive("follower %d.%d holds nothing in any table after the watchdog (not joined on this loaded machine?): %s", f.Partition, f.ID, missing)
+						return
+					}
+				}
 				c.ViolateData("c12-barrier-lost", history, "after all faults were healed and with the leaders' follow pipelines idle for 45s, %s (fault sequence: %v)", missing, history)
 				return
 			}
